@@ -120,9 +120,8 @@ ASSUMPTIONS = [
     "measured to hand to write(); `_EXTERNAL_TENSOR_COPY_CHUNK_SIZE` is patched to a few bytes in part of the cases "
     "(`chunk`) and the userspace loop forced by a destination without fileno (`ucopy`); copy_loop_checks compares "
     "copyReads / reservationBytes with the real loop / the real _reservation_bytes (also for the repo's own 1 MiB "
-    "constant).  NOT counted (observation D331, histogram key observation_D331_two_copy_buffers_live): the previous "
-    "copy buffer is still referenced while the next `src.read` allocates, so an ExternalTensor writer briefly holds "
-    "two buffers for one reservation; numpy / kernel internal buffers; "
+    "constant), including that the previous copy buffer is dropped before the next `src.read` allocates (D331, fixed: "
+    "oracle copy-loop:two-buffers-live).  NOT counted: numpy / kernel internal buffers; "
     "memory a user callback or a LazyTensor cache keeps is outside; since the fix of D170 the callback "
     "runs under the tensor lock (lock order: tensor lock -> callback lock(s) -> budget), which both models follow; the "
     "'touch' cases (callback evaluates the tensor) stay in the generators as a regression probe",
@@ -2370,9 +2369,11 @@ def copy_loop_checks(ctx, pairs=None):
                 ctx.fail("copy-loop:buffer-exceeds-reservation",
                          f"a copy buffer of {max(sizes)} bytes exceeds the reservation {resv}", info)
             if probes and probes[0].transient > max(sizes, default=0):
-                # outside the claim (see the note of ASSUMPTIONS): the previous buffer is still referenced while the
-                # next is read
-                ctx.count("observation_D331_two_copy_buffers_live")
+                # D331 (fixed in /repo bdd45f0: `del chunk` at the end of the loop body): the previous buffer was still
+                # referenced while the next was read, so a writer held two buffers against a reservation of one
+                ctx.fail("copy-loop:two-buffers-live",
+                         f"the copy loop keeps the previous buffer alive while reading the next: {probes[0].transient} "
+                         f"bytes live against a reservation of {resv}", info)
             req = {"m": "writern.copyreads", "len": n, "external": True}
             if chunk is not None:
                 req["chunk"] = chunk
